@@ -334,6 +334,12 @@ def _op_geometry(draw, direction, nbm, nbs, lo):
         return burst, k * ratio - 1, off, size
     ratio = max(1, nbm // nbs)
     nmax = min(256 // ratio, HALF // nbm)
+    if direction == "down" and ratio >= 4 and draw(st.integers(0, 4)) == 0:
+        # one beat narrower than the master's bus but wider than the slave's (the whole wide word is transferred, the strobes /
+        # the master select the bytes)
+        sz = draw(st.integers(_log2(nbs) + 1, size - 1))
+        off = lo + draw(st.integers(0, HALF // nbm - 1)) * nbm + (draw(st.integers(0, nbm - 1)) >> sz << sz)
+        return INCR, 0, off, sz
     wrap_n = [n for n in (2, 4, 8, 16) if n * ratio <= 16 and n <= nmax]
     burst = draw(st.sampled_from([INCR] * 6 + ([WRAP] if wrap_n else []) + [FIXED]))
     low = draw(st.sampled_from([0, 0, 0, 1, nbm - 1, nbm // 2])) % nbm
@@ -369,11 +375,8 @@ def st_conv(tier):
             dwm = dws = draw(st.sampled_from([small, big]))
         idw = draw(st.sampled_from([1, 4, 4, 8]))
         err = draw(st.integers(0, 3)) == 0
+        # (AXIDownConverter's R side-band registers, once a finding excluded here, are repaired - 9f56b8d: R may stall with any id / resp)
         rmode = "free"
-        if direction == "down":
-            # AXIDownConverter registers r.id/r.resp every cycle (finding c10:down-r-sideband, own sub-check):
-            # either R is never stalled and the side-band is fully checked, or R stalls with constant side-band
-            rmode = draw(st.sampled_from(["never-stalled", "constant-sideband"]))
         c = {"kind": kind, "dir": direction, "dwm": dwm, "dws": dws, "idw": idw, "base": draw(st.sampled_from(BASES)),
              "K": draw(st.sampled_from([1, 1, 2])), "Q": draw(st.sampled_from([1, 2, 4])),
              "w_after_aw": draw(st.booleans()), "wait_valid": draw(st.booleans()), "w_needs_aw": draw(st.booleans()),
